@@ -151,8 +151,10 @@ def run(chk):
         "whitelisted boundaries = the ws/mws slots of the grammar as listed by gen/progs.py (single-line trivia inside a statement, "
         "multi-line trivia in front of a statement / around braces / inside config maps); a separator is kept between adjacent alphanumerics; "
         "the slot after a unary minus is not a boundary (documented restriction: `- x` is the scope identifier `-`)",
-        "the statement-level theorem is bounded (props/C08.v: C08_layout_bounded_partial); arbitrary layouts are decided by the correspondence "
-        "and the metamorphic oracle on the implementation",
+        "the statement / whole-file layout theorems (props/C08.v: C08_layout_inner, C08_layout_file) cover replacement of trivia by other "
+        "trivia in texts without string literals; insertion/removal of trivia, trivia before a line break on one side only, strings and "
+        "keyword case are proved on a finite domain only (C08_layout_bounded_partial) and otherwise decided by the correspondence and the "
+        "metamorphic oracle on the implementation",
         "`bytes depend only on the skeleton` has no code model in this unit: decided by the metamorphic oracle",
     ]
     return chk.finish(extra_trusted=[
